@@ -389,6 +389,10 @@ impl System for SignSys {
                         if real.state() != model.state {
                             viol.push(("state".into(), format!("{}-in-{:?}", kind, before), format!("{}: now in {:?}, the documented machine is in {:?}", ctx(), real.state(), model.state)));
                         }
+                        if model.cfg_open && real.sign_type().is_none() && real.sign_type() != model.typ {
+                            // the implementation forgot what the failed attempt told it: allowed, continue from that
+                            model.typ = None;
+                        }
                         if real.sign_type() != model.typ {
                             viol.push(("sign-type".into(), format!("{}-in-{:?}", kind, before), format!("{}: sign_type {:?}, expected {:?}", ctx(), real.sign_type(), model.typ)));
                         }
